@@ -37,6 +37,8 @@ _COPIES = [
     (r"^C05\.rule\.differentiate_", "C10"),
     (r"^C07\.rule\.conjugate_", "C10"),
     (r"^C19\.frame\.reset_parameters\.", "C10"),
+    (r"^C02\.state\.", "C10"),
+    (r"^C02\.state\.", "C17"),
     (r"^C02\.fold_settings\.layer\.Torch(ConstantValue|Evidence)Layer", "C03"),
     (r"^C02\.fold_settings\.layer\.TorchEvidenceLayer", "C06"),
 ]
